@@ -8,11 +8,19 @@ import (
 	"golang.org/x/sys/unix"
 
 	"github.com/mutagen-io/mutagen/pkg/filesystem/internal/syscall"
+	"github.com/mutagen-io/mutagen/pkg/verifhook"
 )
 
 // openatRetryingOnEINTR is a wrapper around the openat system call that retries
 // on EINTR errors and returns on the first successful call or non-EINTR error.
 func openatRetryingOnEINTR(directory int, path string, flags int, mode uint32) (int, error) {
+	if flags&unix.O_CREAT != 0 {
+		if err := verifhook.Point("openat.create", directory, path); err != nil {
+			return -1, err
+		}
+	} else if err := verifhook.Point("openat", directory, path); err != nil {
+		return -1, err
+	}
 	for {
 		result, err := unix.Openat(directory, path, flags, mode)
 		if err == unix.EINTR {
@@ -25,6 +33,9 @@ func openatRetryingOnEINTR(directory int, path string, flags int, mode uint32) (
 // readRetryingOnEINTR is a wrapper around the read system call that retries on
 // EINTR errors and returns on the first successful call or non-EINTR error.
 func readRetryingOnEINTR(file int, buffer []byte) (int, error) {
+	if err := verifhook.Point("read", file, ""); err != nil {
+		return 0, err
+	}
 	for {
 		result, err := unix.Read(file, buffer)
 		if err == unix.EINTR {
@@ -62,6 +73,9 @@ func closeConsideringEINTR(file int) error {
 // retries on EINTR errors and returns on the first successful call or non-EINTR
 // error.
 func mkdiratRetryingOnEINTR(directory int, path string, mode uint32) error {
+	if err := verifhook.Point("mkdirat", directory, path); err != nil {
+		return err
+	}
 	for {
 		err := unix.Mkdirat(directory, path, mode)
 		if err == unix.EINTR {
@@ -75,6 +89,9 @@ func mkdiratRetryingOnEINTR(directory int, path string, mode uint32) error {
 // retries on EINTR errors and returns on the first successful call or non-EINTR
 // error.
 func renameatRetryingOnEINTR(oldDirectory int, oldPath string, newDirectory int, newPath string) error {
+	if err := verifhook.Point("renameat", newDirectory, newPath); err != nil {
+		return err
+	}
 	for {
 		err := unix.Renameat(oldDirectory, oldPath, newDirectory, newPath)
 		if err == unix.EINTR {
@@ -88,6 +105,9 @@ func renameatRetryingOnEINTR(oldDirectory int, oldPath string, newDirectory int,
 // retries on EINTR errors and returns on the first successful call or non-EINTR
 // error.
 func unlinkatRetryingOnEINTR(directory int, path string, flags int) error {
+	if err := verifhook.Point("unlinkat", directory, path); err != nil {
+		return err
+	}
 	for {
 		err := unix.Unlinkat(directory, path, flags)
 		if err == unix.EINTR {
@@ -100,6 +120,9 @@ func unlinkatRetryingOnEINTR(directory int, path string, flags int) error {
 // fstatRetryingOnEINTR is a wrapper around the fstat system call that retries
 // on EINTR errors and returns on the first successful call or non-EINTR error.
 func fstatRetryingOnEINTR(file int, metadata *unix.Stat_t) error {
+	if err := verifhook.Point("fstat", file, ""); err != nil {
+		return err
+	}
 	for {
 		err := unix.Fstat(file, metadata)
 		if err == unix.EINTR {
@@ -112,6 +135,9 @@ func fstatRetryingOnEINTR(file int, metadata *unix.Stat_t) error {
 // fchmodRetryingOnEINTR is a wrapper around the fchmod system call that retries
 // on EINTR errors and returns on the first successful call or non-EINTR error.
 func fchmodRetryingOnEINTR(file int, mode uint32) error {
+	if err := verifhook.Point("fchmod", file, ""); err != nil {
+		return err
+	}
 	for {
 		err := unix.Fchmod(file, mode)
 		if err == unix.EINTR {
@@ -125,6 +151,9 @@ func fchmodRetryingOnEINTR(file int, mode uint32) error {
 // retries on EINTR errors and returns on the first successful call or non-EINTR
 // error.
 func fstatatRetryingOnEINTR(directory int, path string, metadata *unix.Stat_t, flags int) error {
+	if err := verifhook.Point("fstatat", directory, path); err != nil {
+		return err
+	}
 	for {
 		err := unix.Fstatat(directory, path, metadata, flags)
 		if err == unix.EINTR {
@@ -138,6 +167,9 @@ func fstatatRetryingOnEINTR(directory int, path string, metadata *unix.Stat_t, f
 // retries on EINTR errors and returns on the first successful call or non-EINTR
 // error.
 func fchmodatRetryingOnEINTR(directory int, path string, mode uint32, flags int) error {
+	if err := verifhook.Point("fchmodat", directory, path); err != nil {
+		return err
+	}
 	for {
 		err := unix.Fchmodat(directory, path, mode, flags)
 		if err == unix.EINTR {
@@ -151,6 +183,9 @@ func fchmodatRetryingOnEINTR(directory int, path string, mode uint32, flags int)
 // retries on EINTR errors and returns on the first successful call or non-EINTR
 // error.
 func fchownatRetryingOnEINTR(directory int, path string, uid int, gid int, flags int) error {
+	if err := verifhook.Point("fchownat", directory, path); err != nil {
+		return err
+	}
 	for {
 		err := unix.Fchownat(directory, path, uid, gid, flags)
 		if err == unix.EINTR {
@@ -164,6 +199,9 @@ func fchownatRetryingOnEINTR(directory int, path string, uid int, gid int, flags
 // retries on EINTR errors and returns on the first successful call or non-EINTR
 // error.
 func symlinkatRetryingOnEINTR(target string, directory int, path string) error {
+	if err := verifhook.Point("symlinkat", directory, path); err != nil {
+		return err
+	}
 	for {
 		err := syscall.Symlinkat(target, directory, path)
 		if err == unix.EINTR {
@@ -177,6 +215,9 @@ func symlinkatRetryingOnEINTR(target string, directory int, path string) error {
 // retries on EINTR errors and returns on the first successful call or non-EINTR
 // error.
 func readlinkatRetryingOnEINTR(directory int, path string, buffer []byte) (int, error) {
+	if err := verifhook.Point("readlinkat", directory, path); err != nil {
+		return 0, err
+	}
 	for {
 		result, err := syscall.Readlinkat(directory, path, buffer)
 		if err == unix.EINTR {
